@@ -7,6 +7,7 @@ import vlib
 from vlib import ToolError, log
 import simcheck
 import scenarios
+import tracenorm
 
 
 # ------------------------------------------------------------------------------------------
@@ -136,12 +137,12 @@ RTPS_MC = {"quick": [("MC_Rtps", "MC_Rtps_quick.cfg")],
            "thorough": [("MC_Rtps", "MC_Rtps_safety.cfg"), ("MC_Rtps", "MC_Rtps_safetyfrag.cfg")]}
 
 
-def simprop(gen, owns, required, spec="Trace_Rtps", keep_sleep=False, mc=RTPS_MC):
+def simprop(gen, owns, required, spec="Trace_Rtps", keep_sleep=False, mc=RTPS_MC, norm=None):
     return {
         "run": lambda p, tier, seed: simcheck.sim_check(p, tier, seed, gen(tier, seed), spec,
                                                         lambda rule: any(rule.startswith(o + ":") for o in owns),
-                                                        required, RTPS_NOTE, keep_sleep=keep_sleep, mc=mc),
-        "replay": lambda p, path: simcheck.sim_replay(p, path, spec, keep_sleep=keep_sleep),
+                                                        required, RTPS_NOTE, keep_sleep=keep_sleep, mc=mc, norm=norm),
+        "replay": lambda p, path: simcheck.sim_replay(p, path, spec, keep_sleep=keep_sleep, norm=norm),
     }
 
 
@@ -157,6 +158,10 @@ PROPS = {
     "C04": simprop(scenarios.c04, ["C01", "C04", "C06"], {"waithist": 10, "data": 50, "gap": 5, "final": 30}),
     "C27": simprop(scenarios.c27, ["C01", "C27", "C31", "C06"], {"blockedwrite": 20, "data": 50}),
     "C29": simprop(scenarios.c29, ["C01", "C29", "C06"], {"data": 30, "final": 30}),
+    "C16": simprop(scenarios.c16, ["C16", "C06"], {"pubstatus": 30, "substatus": 20, "unmatch": 10}, spec="Trace_Discovery",
+                   mc=None, norm=tracenorm.normalise_discovery),
+    "C17": simprop(scenarios.c17, ["C17", "C06"], {"discovered": 40, "removed": 3, "rediscovered": 2, "isolated": 5}, spec="Trace_Discovery",
+                   mc=None, norm=tracenorm.normalise_discovery),
     "C18": rc("C18", {"quick": C("C18", "C18b", "C18c", "C18d"), "thorough": C("C18", "C18b", "C18c", "C18d")},
               ["history:keep-last-replaces-oldest"]),
     "C19": rc("C19", {"quick": C("C19", "C19b", "C19c"), "thorough": C("C19", "C19b", "C19c")}, ["limits:rejected"]),
